@@ -410,8 +410,8 @@ class Func(object):
                 if is_barrier(n):
                     cut = True
                     break
-            if cut:
-                continue
+            if cut or self.blocks[b].get("nr"):
+                continue          # a noreturn call ends the path: it does not return
             for s in self.succ[b]:
                 if s >= 0 and s not in seen:
                     dq.append((s, 0, path + (s,)))
